@@ -18,6 +18,7 @@ RULE = ("Exhaustive: every sequence of length <=3 (thorough <=4) over 39 operati
         "initial pair lists; random sequences of length <=30 over 4 keys x 4 values with the icontract invariant armed on the real class; "
         "constructor forms; query strings with blanks, repeats, '+', %xx, non-ASCII. Non-trivial = a sequence containing at least one mutating "
         "operation applied to a key that has >=1 pair or creating a repeated key; exhaustive sequences are distinct by construction.")
+RULE += " Also: construction from one-shot iterables and from mappings of the other family classes, several mappings built from one list object (aliasing), falsy values ('', 0, None)."
 ASSUMPTIONS = [
     "the position of a re-assigned key's pair and which key popitem() removes are not pinned (any consistent choice accepted)",
     "update(mapping) assigns the mapping's single value per key (MutableMapping contract)",
